@@ -92,6 +92,7 @@ type codecRec struct {
 	OrigOK bool `json:"orig_ok"` // the untouched entry verifies
 	MutOK  bool `json:"mut_ok"`  // the modified entry still verifies under the original signature
 	Same   bool `json:"same"`    // harness: the modification did not change the concrete bytes (obligation skipped)
+	Sealed bool `json:"sealed"`  // evaluated under a link-sealing codec
 	// c08
 	RoundTrip  bool     `json:"roundtrip"`  // every field equal after write + read
 	Diff       []string `json:"diff"`       // fields that differ
@@ -229,8 +230,8 @@ func safeVerify(e iface.IPFSLogEntry, p idp.Interface, io iface.IO) (ok bool) {
 	return e.Verify(p, io) == nil
 }
 
-func (env *codecEnv) runC07(ob *obligation, variant int, io iface.IO) codecRec {
-	rec := codecRec{K: "c07", Ob: ob, Conc: variant, Diff: []string{}}
+func (env *codecEnv) runC07(ob *obligation, variant int, io iface.IO, sealed bool) codecRec {
+	rec := codecRec{K: "c07", Ob: ob, Conc: variant, Diff: []string{}, Sealed: sealed}
 	e, err := env.build(ob.E, variant, io)
 	if err != nil {
 		rec.HErr, rec.Note = true, "harness: "+err.Error()
@@ -995,6 +996,7 @@ func codecrun(args []string) int {
 	outPath := fs.String("out", "", "observed table (ndjson)")
 	only := fs.String("only", "", "comma list of obligation kinds to run (c07,c07sig,c08,c12,raw,vector)")
 	conc := fs.Int("conc", 2, "concretisations per obligation")
+	c07codec := fs.String("c07codec", "cbor", "codec under which the C07 obligations are evaluated")
 	nraw := fs.Int("raw", 400, "raw byte strings for C12")
 	seed := fs.Int64("seed", 1, "seed")
 	_ = fs.Parse(args)
@@ -1017,7 +1019,11 @@ func codecrun(args []string) int {
 	env := &codecEnv{ctx: ctx, api: fakeipfs.New(), pool: pool, rnd: rand.New(rand.NewSource(*seed)),
 		links: map[string]cid.Cid{"c1": mkLink("1"), "c2": mkLink("2"), "c3": mkLink("3")}}
 	env.dev2 = secondDevice(ctx, pool)
-	cio, _ := world.Codec("cbor")
+	cio, err := world.Codec(*c07codec)
+	if err != nil {
+		fmt.Fprintln(os.Stderr, "harness:", err)
+		return 2
+	}
 	f, err := os.Open(*obPath)
 	if err != nil {
 		fmt.Fprintln(os.Stderr, "harness:", err)
@@ -1053,7 +1059,7 @@ func codecrun(args []string) int {
 			var rec codecRec
 			switch ob.K {
 			case "c07":
-				rec = env.runC07(ob, v, cio)
+				rec = env.runC07(ob, v, cio, *c07codec != "cbor")
 			case "c07sig":
 				rec = env.runC07Sig(ob, v, cio)
 			case "c08":
